@@ -1,11 +1,13 @@
 #!/bin/sh
 # Offline setup: copy go.sum next to the harness go.mod and warm the Go build cache
-# by compiling every check package against /repo's working tree (build tag verif).
+# by compiling the check packages named in MANIFEST.json against /repo's working tree (build tag verif).
 set -e
-cd "$(dirname "$0")/harness"
+cd "$(dirname "$0")"
+ids=$(python3 -c "import json;print(' '.join('./'+c['property_id'].lower() for c in json.load(open('MANIFEST.json'))['checks']))")
+cd harness
 unset GOTOOLCHAIN GOSUMDB
 export GOFLAGS=-mod=mod GOPROXY=off
 cp /repo/go.sum go.sum
-go test -count=1 -tags verif -run '^$' ./... >/dev/null
-if [ -d c05 ]; then go test -count=1 -race -tags verif -run '^$' ./c05 >/dev/null; fi
+go test -count=1 -tags verif -run '^$' $ids >/dev/null
+case " $ids " in *" ./c05 "*) go test -count=1 -race -tags verif -run '^$' ./c05 >/dev/null;; esac
 echo setup ok
